@@ -104,6 +104,7 @@ class Run:
         self.distinct = 0
         self.distinct_nontrivial = 0
         self.drift = 0
+        self.drift_ops = {}
         self.undecided = 0
 
     def cleanup(self):
@@ -216,7 +217,9 @@ class Run:
             self.events += len(lines)
             if len(self.samples) < 3 and lines:
                 self.samples.append(json.loads(lines[len(lines) // 2]))
-            self.drift += len(re.findall(r'<<"DRIFT", \d+>>', out))
+            self.drift += len(re.findall(r'<<"DRIFT", \d+', out))
+            for m in re.finditer(r'<<"DRIFT", (\d+), "(\w*)", "(\w*)">>', out):
+                self.drift_ops[m.group(3) or m.group(2)] = self.drift_ops.get(m.group(3) or m.group(2), 0) + 1
             self.undecided += out.count('"UNDECIDED-HINT"')
             for m in re.finditer(r'<<"VIOL", (\d+), \{([^}]*)\}>>', out):
                 ln = int(m.group(1))
@@ -320,6 +323,7 @@ def write_evidence(run, level, violations, rule, extra=None, assumptions=None, n
         "drivers": run.drivers,
         "exhaustive": False,
         "alg_model_drift": run.drift,
+        "alg_model_drift_by_op": run.drift_ops,
         "undecided_events": run.undecided,
     }
     if extra:
